@@ -355,6 +355,9 @@ def run(tier, seed):
         (r1, u1), (r2, u2) = redef[k], redef[k + 1]
         mixed = u2[:12] + u1[:8]
         steps = [{"src": define_text(r1)}] + [{"src": use_text(u), "disp": True} for u in u1[:8]]
+        # a procedure with a PARAMETER named like the keyword is defined (define shorthand / lambda) and called: later uses of m are still macro uses
+        steps += [{"src": rng.choice(["(define (zf m) (list m 1))", "(define zf (lambda (m) (list m 1)))", "(define (zf a . m) (list m 1))"])}, {"src": "(car (zf 5 6))" if False else "(pair? (zf 5))", "disp": True}]
+        steps += [{"src": use_text(u), "disp": True} for u in u1[:4]]      # the same uses once more: m is still the macro
         between = False      # (a variable definition of m between the two: m stays a macro in Ruschm; no property speaks about that, see DESIGN 4.3)
         if between:
             steps += [{"src": "(define (m . args) (cons 'procedure-m args))"}, {"src": "(m 1 2)", "disp": True}]
@@ -368,6 +371,13 @@ def run(tier, seed):
         pos = 1
         for u in u1:
             judge(ctx, r1, u, st[pos], "eval-before-redefinition"); pos += 1
+        kz, vz = core.outcome(st[pos + 1])
+        if core.outcome(st[pos])[0] != "ok" or kz != "ok" or vz.get("disp") != "#t":
+            ctx.violation({"what": "a procedure with a parameter named like the macro keyword could not be defined and called", "kind": "macro", "via": "redefinition", "observed": [st[pos], st[pos + 1]],
+                           "dedupe": "param-named-m"}, {"define": define_text(r1)})
+        pos += 2
+        for u in u1[:4]:
+            judge(ctx, r1, u, st[pos], "eval-after-parameter-named-like-keyword"); pos += 1
         if between:
             k1, v1 = core.outcome(st[pos + 1])
             if k1 != "ok" or v1.get("disp") != "(procedure-m 1 2)":
